@@ -41,12 +41,17 @@ def ignore_configs(bytes_mode):
     if bytes_mode:
         return [
             ('byte', [('ignore', ('byte', 0x20))], ' '),
+            ('bre-1char', [('ignore', ('bre', '[ _]', False))], ' _'),
             ('byte+re', [('ignore', ('byte', 0x20)), ('irule', 'Under', ('bre', '_+', False))], ' _'),
         ]
     return [
         ('anon-re', [('ignore', ('re', ' +', False))], ' '),
         ('named-re', [('irule', 'Space', ('re', ' +', False))], ' '),
         ('anon-str', [('ignore', ('str', ' '))], ' '),
+        # one match covers one character only: a run is several matches
+        ('anon-re-1char', [('ignore', ('re', '[ _]', False))], ' _'),
+        ('named-re-1char', [('irule', 'Blank', ('re', '[ _]', False))], ' _'),
+        ('anon-re-alt', [('ignore', ('re', ' |_+|~', False))], ' _~'),
         ('two', [('ignore', ('str', ' ')), ('ignore', ('re', '_+', False))], ' _'),
         ('three', [('ignore', ('str', ' ')), ('irule', 'Under', ('str', '_')), ('ignore', ('re', '~+', False))], ' _~'),
         ('alt', [('ignore', ('alt', [('str', ' '), ('str', '_')]))], ' _'),
